@@ -202,7 +202,9 @@ class Structured(UrlParams):
     """queries assembled from RFC 4516 fields: 0..2 attributes, scope word, filter, 0..2 extensions with
     symbolic criticality, recognised names in symbolic letter case, unknown names, symbolic values"""
     name = 'C20.structured_query'
-    EXT_NAMES = ['bindname', 'x-bindpw', '1.3.6.1.4.1.1466.20037', '1.3.6.1.4.1.10094.1.5.1', None]
+    # 'name+' = the recognised name followed by one symbolic character, 'name-' = the name without its last character:
+    # neither is the recognised extension (seed C20_4: prefix comparison instead of equality)
+    EXT_NAMES = ['bindname', 'x-bindpw', '1.3.6.1.4.1.1466.20037', '1.3.6.1.4.1.10094.1.5.1', None, 'bindname+', 'x-bindpw+', 'bindname-', '1.3.6.1.4.1.1466.20037+']
 
     def __init__(self, ctx, vlen, full=False):
         Lane.__init__(self, ctx, vlen, full); self.vlen = vlen; self.k = 0; self.full = full
@@ -214,11 +216,14 @@ class Structured(UrlParams):
     def ext(self, i):
         c = self.c; S = ber.bstr
         out = S('!') if c.choose(2, f'crit{i}') else []
-        names = self.EXT_NAMES if (self.full or i == 0) else ['bindname', None]
+        names = self.EXT_NAMES if i == 0 else (self.EXT_NAMES[:5] if self.full else ['bindname', None])   # near-miss names on the first extension only
         nm = names[c.choose(len(names), f'ename{i}')]
         if nm is None:
             out += [self.sym(), self.sym()]
         else:
+            near = nm[-1] if nm[-1] in '+-' else ''
+            if near: nm = nm[:-1]
+            if near == '-': nm = nm[:-1]
             for ch in nm.encode():
                 if chr(ch).isalpha():
                     self.k += 1
@@ -226,6 +231,8 @@ class Structured(UrlParams):
                     out.append(z3.If(up, bv(ch & 0xdf, 8), bv(ch, 8)))
                 else:
                     out.append(bv(ch, 8))
+            if near == '+':
+                out.append(self.sym())
         if (self.full or i == 0) and c.choose(2, f'hasval{i}'):
             out += S('=')
             if i == 0 and c.choose(2, f'valpct{i}'):
@@ -269,7 +276,7 @@ def body(chk):
     if not quick:
         p2 = tier_param('C20B', (3, 8))
         run_lane(chk, UrlParams, p2, bounds={'path chars': f'<= {p2[0]}', 'query chars': f'<= {p2[1]} (absent or present)', 'alphabet': 'as above'}, selftest=False, need_regions=('ok',))
-    run_lane(chk, Structured, ((1, False) if quick else tier_param('C20S', (2, False))), bounds={'attributes': '0..2', 'scope': 'omitted/base/one/sub', 'filter': 'omitted or 3 symbolic chars', 'extensions': '0..2: critical or not, bindname/x-bindpw (symbolic case)/StartTLS OID/credentials OID/unknown, without value, with symbolic characters, or with a percent-encoded octet (any two hex digits) between two characters'},
+    run_lane(chk, Structured, ((1, False) if quick else tier_param('C20S', (2, False))), bounds={'attributes': '0..2', 'scope': 'omitted/base/one/sub', 'filter': 'omitted or 3 symbolic chars', 'extensions': '0..2: critical or not, bindname/x-bindpw (symbolic case)/StartTLS OID/credentials OID/unknown/a recognised name plus one symbolic character/a recognised name minus its last character, without value, with symbolic characters, or with a percent-encoded octet (any two hex digits) between two characters'},
              selftest=False, need_regions=('ok', 'err:UnrecognizedCriticalExtension'))
     chk.assumptions += [
         'url::Url::path()/query() are nondeterministic stubs constrained by the url crate\'s documented output alphabet for non-special schemes; every counterexample is replayed through the real url crate, and a path/query the crate does not reproduce makes the check inconclusive',
